@@ -109,3 +109,6 @@ package frozenfunds
 //@   ensures listkept: m != nil ==> m.List == old(m.List)
 //@   loop 0 invariant idx: -1 <= rangeindex && (rangeindex < len(ff.List) || (rangeindex == -1 && len(ff.List) == 0)) && ff == m && ff.List == old(m.List)
 //@   loop 0 invariant sum: ledgerDelta(f.bus.checker, anyFundCoin()) == old(ledgerDelta(f.bus.checker, anyFundCoin())) - old(fundSum(m.List, rangeindex + 1, anyFundCoin()))
+
+//@ # ---------------------------------------------------------------- lock discipline (C25)
+//@ guarded FrozenFunds.list, FrozenFunds.dirty by lock
